@@ -157,7 +157,8 @@ def stepRecvPath (w : RxW) : List String → RxW × String
             | _ => none
           pt.map (fun pt => .ok { ptype := pt, versionSupported := g "vs" == some "1",
                                   dcidKnown := g "known" == some "1", retryValid := g "rv" == some "1",
-                                  vnHasCurrent := g "vc" == some "1", vnHasCommon := g "vm" == some "1" })
+                                  vnHasCurrent := g "vc" == some "1", vnHasCommon := g "vm" == some "1",
+                                  vnEcho := g "ve" == some "1" })
         | _ => none
       let dec : Dec ObsPayload := match g "d" with
         | some "key" => .keyUnavailable
